@@ -20,7 +20,7 @@ PROPERTY = "C16"
 LEVEL = "exploration"
 SIM_UNIT = "virtual seconds"
 CHUNK = 10
-TRACE = ("server/bptkServer.py", "BPTK_Py/bptk.py", "scenariorunners/sd_runner.py", "scenariomanager/scenario.py")
+TRACE = ("server/bptkServer.py", "BPTK_Py/bptk.py", "scenariorunners/sd_runner.py", "scenariomanager/scenario.py", "externalstateadapter/externalStateAdapter.py")
 RULE = ("a run = k in {2,3,4} instances, each with a generated request stream (create, begin-session with settings "
         "unique to the instance, run-step with/without settings/body, run-steps, stream-steps, session-results, "
         "flat-session-results, end-session, keep-alive, stop-instance, time-outs that do fire on victim instances), "
